@@ -28,8 +28,8 @@ def bufSize : Nat := (b1 + b2)
 /-- bytes of a block kept for the next window: `keep := len(packmarker) - 1` -/
 def keep : Nat := (marker.length - 1)
 
-/-- for every byte value: is it skipped after the marker? Computed with Go's unicode.IsControl || unicode.IsSpace
-    (the functions RunPackedBinary calls) -/
+/-- for every byte value: is it skipped after the marker? Evaluated from the predicate of the skip loop
+    with Go's unicode functions: `stop when rerr != nil || !(unicode.IsSpace(rune(c[0])) || unicode.IsControl(rune(c[0])))` -/
 def skipTable : List Bool :=
   [true, true, true, true, true, true, true, true, true, true, true, true, true, true, true, true, true, true, true, true, true, true, true, true, true, true, true, true, true, true, true, true, true, false, false, false, false, false, false, false, false, false, false, false, false, false, false, false, false, false, false, false, false, false, false, false, false, false, false, false, false, false, false, false, false, false, false, false, false, false, false, false, false, false, false, false, false, false, false, false, false, false, false, false, false, false, false, false, false, false, false, false, false, false, false, false, false, false, false, false, false, false, false, false, false, false, false, false, false, false, false, false, false, false, false, false, false, false, false, false, false, false, false, false, false, false, false, true, true, true, true, true, true, true, true, true, true, true, true, true, true, true, true, true, true, true, true, true, true, true, true, true, true, true, true, true, true, true, true, true, true, false, false, false, false, false, false, false, false, false, false, false, false, false, false, false, false, false, false, false, false, false, false, false, false, false, false, false, false, false, false, false, false, false, false, false, false, false, false, false, false, false, false, false, false, false, false, false, false, false, false, false, false, false, false, false, false, false, false, false, false, false, false, false, false, false, false, false, false, false, false, false, false, false, false, false, false, false, false, false, false, false, false, false, false, false, false, false, false, false, false, false, false, false, false, false]
 
